@@ -78,7 +78,7 @@ def run_case(spec):
     if rng.random() < 0.6:
         for name in REG_CLASSES:
             if rng.random() < 0.3:
-                regs[name] = rng.choice(["ok", "raise", "raise", "raise_badstr", "hostile", "raise_pool", "raise_pool"])
+                regs[name] = rng.choice(["ok", "raise", "raise", "raise_badstr", "hostile", "raise_pool", "raise_pool", "collide"])
     ext_calls = {"n": 0}
 
     def make_extractor(name, kind):
@@ -95,6 +95,9 @@ def run_case(spec):
                 fired["extractor"] += 1
                 raise excs.make(random.Random(name).choice(["ValueError", "KeyError", "UserError", "DeepUserError", "OSError", "RuntimeError", "BadStr"]),
                                 "extractor for %s failed" % name)
+            if kind == "collide":
+                # a well-behaved extractor whose field names coincide with the names eliot itself uses
+                return {"exception": 5, "reason": faults.Plain(), "traceback": 7, "message_type": "mine", "action_status": "x", "task_uuid": 3}
             if kind == "hostile":
                 return {"ext": faults.hostile_value(random.Random(ext_calls["n"]))}
             return {"ext_" + name: name}
